@@ -14,7 +14,7 @@ META = {
             "The same (database, query, options) is searched repeatedly, on independently loaded copies and in separate processes; ranked lists must be bit-identical. Map-order 'schedules' are explored by repetition on tie-heavy databases, not enumerated.",
             "Go's per-range map randomisation is the only source of schedule variety; cannot be seeded"),
     "C03": ("differential against an independent reference tokenizer + BM25F scorer; fresh-load differential for histories",
-            "Every generated search (NLP off) is recomputed by a from-scratch reference scorer over the command texts (set equality both ways, scores within 1e-9 relative); after load/merge/replace/grow histories results must equal those of a freshly loaded database.",
+            "Every generated search (NLP off) is recomputed by a from-scratch reference scorer over the command texts (set equality both ways, scores within 1e-9 relative); after load/merge/replace/grow/in-place-edit histories (file-loaded and program-made entries) results must equal those of a fresh database with the same content. In a third of the cases the platform filter is on (canonical tags, first words classified by the harness) and eligibility is part of the expected set.",
             "BM25F parameters are read through a verif-tag accessor; stop-word table read from the exported nlp.StopWords(); case-irregular runes excluded (C20's subject)"),
     "C04": ("one-directional eligibility predicate over every result on every path",
             "Each result of generated searches (lexical, NLP, typo fallback, cached, legacy pipeline, built binary) is checked against an independent eligibility predicate for platform and pipeline filters, using the most permissive reading of the alias table so that no conforming implementation alarms.",
@@ -59,7 +59,7 @@ META = {
             "Generated CLI invocations in an isolated HOME: printed results must equal the engine's answer in order within the limit, JSON must decode to one object per result, no ESC bytes under no-color, exactly one matching newest history entry; every sub-command exits 0/1 without panic.",
             "in-process recomputation uses the same packages as the binary, so it checks the CLI wiring, not the engine (that is C01-C07)"),
     "C18": ("identity + exact accounting over generated metric names, tag maps and record sequences, sequential and concurrent (-race)",
-            "Equal (name, tags) built in different insertion orders must return the same metric pointer; counters/histograms/monitor totals must equal the number of recorded events; percentiles monotone.",
+            "Equal (name, tags) built in different insertion orders must return the same metric pointer; counters/histograms/monitor totals must equal the number of recorded events; percentiles monotone. A state machine over every accessor (collector methods, package-level default collector, timers, stand-alone histograms with own buckets, resets) keeps a model per identity, incl. identities that share a name or carry a derived-series name.",
             "names/tags avoid ':' and '=' (key injectivity is not part of the statement)"),
     "C19": ("totality of loaders on generated bytes in a memory-capped child + cosine laws + metamorphic search with/without an injected index",
             "Generated embedding files are loaded in a child under RLIMIT_AS; never a crash or OOM; cosine is symmetric, bounded, zero on degenerate input; an attached index can only raise scores by the bounded factor and keeps order; without files nothing changes.",
